@@ -88,6 +88,10 @@ def run(ctx):
     _packers(ctx)
     run_pad_rule(ctx)
     run_order_rule(ctx)
+    ctx.clause("C11.9 the dictionary encoders give every input the index of the slot that holds its value; the dictionary is the distinct values in first-occurrence order")
+    from ..rules import dictbuild
+    ndb = dictbuild.check(ctx)
+    ctx.floor("C11 dictionary encoder entry points executed", ndb, 3)
 
     # ---- (2) skeleton size agreement
     _plain(ctx)
